@@ -67,12 +67,38 @@ func monitorC06(col *stats.Collector) func(h *Hist) {
 			if st == sim.PayPending || st == sim.PaySucceeded {
 				origin := originState(n, id)
 				key := fmt.Sprintf("C06/key-disclosed:%s:%s", strings.TrimPrefix(origin, "State_"), st)
+				// What the node knew decides the root cause: a node whose durable record already holds the
+				// claim preimage *knows* it has paid, and a node whose payment call has not returned yet was
+				// never told that the payment failed. Neither is the listed finding (the failure path ignores
+				// a payment the node was told nothing certain about), so they get keys of their own.
+				if rec.Data.ClaimPreimage != "" {
+					key = fmt.Sprintf("C06/key-disclosed-holding-preimage:%s", strings.TrimPrefix(origin, "State_"))
+				} else if payCallInFlight(n, hash) {
+					key = fmt.Sprintf("C06/key-disclosed-during-payment-call:%s", strings.TrimPrefix(origin, "State_"))
+				}
 				h.stop = col.Violation(h.T, key, "%s sent coop_close (private key) for swap %s while its claim payment is %s (decided in %s)\n%s\n-- log --\n%s",
 					n.Name, id[:6], st, origin, h.dump(), tail(sim.LogDump(), 30))
 				return
 			}
 		}
 	}
+}
+
+// payCallInFlight reports whether a payment call of the node's live process for this hash has not
+// returned yet.
+func payCallInFlight(n *sim.Node, hash string) bool {
+	if n.Proc == nil {
+		return false
+	}
+	for _, pc := range n.PayCallsCopy() {
+		if pc.Returned || pc.Epoch != n.Proc.Epoch || pc.Kind != "claim" {
+			continue
+		}
+		if inv, err := sim.DecodeInvoice(pc.Payreq); err == nil && inv.Hash == hash {
+			return true
+		}
+	}
+	return false
 }
 
 func tail(s string, n int) string {
@@ -153,7 +179,7 @@ func closureC06(h *Hist, col *stats.Collector) {
 }
 
 func runC06(t *rapid.T, col *stats.Collector, lnd bool) {
-	h := newHist(t, HistCfg{MaxSteps: 30, Chains: []string{"btc", "lbtc"}, Restarts: true, Crashes: true, Faults: true, PayOutcomes: true, Timeouts: true, LNDStyle: lnd,
+	h := newHist(t, HistCfg{MaxSteps: 30, Chains: []string{"btc", "lbtc"}, Restarts: true, Crashes: true, Faults: true, PayOutcomes: true, SlowPays: true, Timeouts: true, LNDStyle: lnd,
 		Weights: map[string]int{"start": 0, "progress": 14, "deliver": 1, "settle": 1, "restart": 1, "mine": 2, "watcher": 1, "paid": 1, "timeout": 2, "payplan": 3, "resolve": 2, "fault": 2, "armcrash": 1}})
 	defer h.Close()
 	h.B.LNDStyle = lnd
